@@ -3,7 +3,7 @@
 // harness reads; a relay task logs every output IN CHANNEL ORDER and passes it on to the channel `run` reads.  The log is
 // the complete message flow of the run: who sent what to whom, in the order the root relays it (= the order in which it
 // reaches the destination's inbox).  The model side (runner/drv_flow.ml) replays every actor on the messages it was sent.
-//   case line:  W <id> <roots n,n,..> <targets n:K:deps,.. ; ...  K in B,S,G, deps '-' or n.n.n> <failing builds n,n | ->
+//   case line:  W <id> <roots n,n,..> <targets n:K:deps[:delay_ms];...  K in B,S,G, deps '-' or n.n.n> <failing builds n,n | ->
 //   result:     <id> status=<ok|err:n|-> consumed=<k> O=[dest<-msg;dest<-msg;ERR:n;...]
 //   `consumed`: how many logged outputs the root had taken when `run` returned (later ones were never forwarded).
 use super::super::util::*;
@@ -101,10 +101,15 @@ fn run_case(line: &str, scratch: &std::path::Path) -> String {
         let t = match p[1] {
             "B" => Target::Build(BuildTarget {
                 metadata,
-                build_script: if failing.contains(&n) {
-                    "exit 1".to_string()
-                } else {
-                    "exit 0".to_string()
+                build_script: {
+                    // optional 4th field: how long the script takes, in milliseconds (varies the interleavings)
+                    let delay = p.get(3).and_then(|d| d.parse::<u64>().ok()).unwrap_or(0);
+                    let status = if failing.contains(&n) { 1 } else { 0 };
+                    if delay > 0 {
+                        format!("sleep {}.{:03}; exit {}", delay / 1000, delay % 1000, status)
+                    } else {
+                        format!("exit {}", status)
+                    }
                 },
                 input: Resources::new(),
                 output: Resources::new(),
